@@ -466,6 +466,8 @@ fn gen_dops(rng: &mut Rng, directed: Option<usize>) -> Vec<DOp> {
         Some(1) => return vec![DOp::Create(2), DOp::Consume(TokRef::Inv(1), 2), DOp::Consume(TokRef::Inv(1), 3), DOp::Restart, DOp::Consume(TokRef::Inv(1), 4)],
         // ... used once, then only after a restart: must be unknown (the stored row is deleted before the grant)
         Some(4) => return vec![DOp::Create(2), DOp::Consume(TokRef::Inv(1), 2), DOp::Restart, DOp::Lookup(TokRef::Inv(1), 3), DOp::Consume(TokRef::Inv(1), 3), DOp::Lookup(TokRef::Peer(2), 2), DOp::Lookup(TokRef::Peer(3), 3)],
+        // this instance accepts an invitation it created itself, restarts, and the invitation is used
+        Some(5) => return vec![DOp::Create(0), DOp::Accept(Some((1, 1, Some(2)))), DOp::Restart, DOp::Lookup(TokRef::Inv(1), 3), DOp::Consume(TokRef::Inv(1), 3), DOp::Lookup(TokRef::Inv(1), 2), DOp::Consume(TokRef::Inv(1), 2), DOp::Lookup(TokRef::Inv(1), 2)],
         // a default room that can be granted, and none: consumed once, gone after a restart as well
         Some(2) => return vec![DOp::Create(1), DOp::Create(0), DOp::Consume(TokRef::Inv(1), 2), DOp::Restart, DOp::Consume(TokRef::Inv(1), 3), DOp::Consume(TokRef::Inv(2), 3), DOp::Restart, DOp::Consume(TokRef::Inv(2), 4), DOp::Lookup(TokRef::Peer(2), 2), DOp::Lookup(TokRef::Peer(3), 3)],
         // pending invitations survive a restart; a received one is consumed by its signer only
@@ -631,7 +633,7 @@ async fn main() {
 
     // ---------------- the table with its database: default rooms, restarts
     for n in 0..scale(30, 300) {
-        let ops = gen_dops(&mut rng, if n < 5 { Some(n) } else { None });
+        let ops = gen_dops(&mut rng, if n < 6 { Some(n) } else { None });
         let mut inst = instance(&ids[&1], &format!("db_{}_{}", seed(), n)).await;
         let (obs, terms) = run_dops(&ids, &mut inst, &ops).await;
         let dir = inst.dir.clone();
@@ -641,7 +643,7 @@ async fn main() {
         for (i, op) in ops.iter().enumerate() { if let DOp::Consume(TokRef::Inv(v), _) = op { if obs[2 * i + 1] == 1 { *grants.entry(*v).or_insert(0) += 1; } } }
         let restarts = ops.iter().filter(|o| matches!(o, DOp::Restart)).count();
         *stats.entry(format!("invdb.{}", if grants.values().any(|c| *c > 1) { "granted-more-than-once" } else if grants.is_empty() { "nothing-consumed" } else { "consumed-once" })).or_insert(0) += 1;
-        cases.push(Case { kind: if n < 2 { "K4-ungrantable-default-room".to_string() } else if n < 5 { "invdb-directed".to_string() } else { "invdb".to_string() },
+        cases.push(Case { kind: if n < 2 { "K4-ungrantable-default-room".to_string() } else if n < 6 { "invdb-directed".to_string() } else { "invdb".to_string() },
                           coq: format!("CInvDb 1%N {{| s_bytes := 1%N; s_pub := 1%N |}} 1%N {}", glist(&terms)), obs,
                           meta: json!({"ops": ops.len(), "restarts": restarts}) });
     }
